@@ -4,7 +4,7 @@
         /// a variant is returned only for its own control field, with what its packet type decodes on its own
         open spec fn parse_ok(b: Seq<u8>, v: Self) -> bool {
             match v {
-                Self::CompletionData(x) => b.len() >= 2 && b[0] == 6 && b[1] == 15 && <crate::packets::CompletionData as zvt_builder::ZvtSerializer>::zd_ok(b, x),
+                Self::CompletionData(x) => b.len() >= 2 && b[0] == 6 && b[1] == 15 && zvt_builder::tid_of(x) == 3 /* packets::CompletionData */ && zvt_builder::zd_ok_of(b, x),
             }
         }
         /// the command's reply set
@@ -18,9 +18,9 @@
         /// a variant is returned only for its own control field, with what its packet type decodes on its own
         open spec fn parse_ok(b: Seq<u8>, v: Self) -> bool {
             match v {
-                Self::IntermediateStatusInformation(x) => b.len() >= 2 && b[0] == 4 && b[1] == 255 && <crate::packets::IntermediateStatusInformation as zvt_builder::ZvtSerializer>::zd_ok(b, x),
-                Self::StatusInformation(x) => b.len() >= 2 && b[0] == 4 && b[1] == 15 && <crate::packets::StatusInformation as zvt_builder::ZvtSerializer>::zd_ok(b, x),
-                Self::Abort(x) => b.len() >= 2 && b[0] == 6 && b[1] == 30 && <crate::packets::Abort as zvt_builder::ZvtSerializer>::zd_ok(b, x),
+                Self::IntermediateStatusInformation(x) => b.len() >= 2 && b[0] == 4 && b[1] == 255 && zvt_builder::tid_of(x) == 2 /* packets::IntermediateStatusInformation */ && zvt_builder::zd_ok_of(b, x),
+                Self::StatusInformation(x) => b.len() >= 2 && b[0] == 4 && b[1] == 15 && zvt_builder::tid_of(x) == 1 /* packets::StatusInformation */ && zvt_builder::zd_ok_of(b, x),
+                Self::Abort(x) => b.len() >= 2 && b[0] == 6 && b[1] == 30 && zvt_builder::tid_of(x) == 4 /* packets::Abort */ && zvt_builder::zd_ok_of(b, x),
             }
         }
         /// the command's reply set
@@ -34,11 +34,11 @@
         /// a variant is returned only for its own control field, with what its packet type decodes on its own
         open spec fn parse_ok(b: Seq<u8>, v: Self) -> bool {
             match v {
-                Self::IntermediateStatusInformation(x) => b.len() >= 2 && b[0] == 4 && b[1] == 255 && <crate::packets::IntermediateStatusInformation as zvt_builder::ZvtSerializer>::zd_ok(b, x),
-                Self::PrintLine(x) => b.len() >= 2 && b[0] == 6 && b[1] == 209 && <crate::packets::PrintLine as zvt_builder::ZvtSerializer>::zd_ok(b, x),
-                Self::PrintTextBlock(x) => b.len() >= 2 && b[0] == 6 && b[1] == 211 && <crate::packets::PrintTextBlock as zvt_builder::ZvtSerializer>::zd_ok(b, x),
-                Self::CompletionData(x) => b.len() >= 2 && b[0] == 6 && b[1] == 15 && <crate::packets::CompletionData as zvt_builder::ZvtSerializer>::zd_ok(b, x),
-                Self::Abort(x) => b.len() >= 2 && b[0] == 6 && b[1] == 30 && <crate::packets::Abort as zvt_builder::ZvtSerializer>::zd_ok(b, x),
+                Self::IntermediateStatusInformation(x) => b.len() >= 2 && b[0] == 4 && b[1] == 255 && zvt_builder::tid_of(x) == 2 /* packets::IntermediateStatusInformation */ && zvt_builder::zd_ok_of(b, x),
+                Self::PrintLine(x) => b.len() >= 2 && b[0] == 6 && b[1] == 209 && zvt_builder::tid_of(x) == 6 /* packets::PrintLine */ && zvt_builder::zd_ok_of(b, x),
+                Self::PrintTextBlock(x) => b.len() >= 2 && b[0] == 6 && b[1] == 211 && zvt_builder::tid_of(x) == 7 /* packets::PrintTextBlock */ && zvt_builder::zd_ok_of(b, x),
+                Self::CompletionData(x) => b.len() >= 2 && b[0] == 6 && b[1] == 15 && zvt_builder::tid_of(x) == 3 /* packets::CompletionData */ && zvt_builder::zd_ok_of(b, x),
+                Self::Abort(x) => b.len() >= 2 && b[0] == 6 && b[1] == 30 && zvt_builder::tid_of(x) == 4 /* packets::Abort */ && zvt_builder::zd_ok_of(b, x),
             }
         }
         /// the command's reply set
@@ -52,8 +52,8 @@
         /// a variant is returned only for its own control field, with what its packet type decodes on its own
         open spec fn parse_ok(b: Seq<u8>, v: Self) -> bool {
             match v {
-                Self::CompletionData(x) => b.len() >= 2 && b[0] == 6 && b[1] == 15 && <crate::packets::CompletionData as zvt_builder::ZvtSerializer>::zd_ok(b, x),
-                Self::Abort(x) => b.len() >= 2 && b[0] == 6 && b[1] == 30 && <crate::packets::Abort as zvt_builder::ZvtSerializer>::zd_ok(b, x),
+                Self::CompletionData(x) => b.len() >= 2 && b[0] == 6 && b[1] == 15 && zvt_builder::tid_of(x) == 3 /* packets::CompletionData */ && zvt_builder::zd_ok_of(b, x),
+                Self::Abort(x) => b.len() >= 2 && b[0] == 6 && b[1] == 30 && zvt_builder::tid_of(x) == 4 /* packets::Abort */ && zvt_builder::zd_ok_of(b, x),
             }
         }
         /// the command's reply set
@@ -67,7 +67,7 @@
         /// a variant is returned only for its own control field, with what its packet type decodes on its own
         open spec fn parse_ok(b: Seq<u8>, v: Self) -> bool {
             match v {
-                Self::CompletionData(x) => b.len() >= 2 && b[0] == 6 && b[1] == 15 && <crate::packets::CompletionData as zvt_builder::ZvtSerializer>::zd_ok(b, x),
+                Self::CompletionData(x) => b.len() >= 2 && b[0] == 6 && b[1] == 15 && zvt_builder::tid_of(x) == 3 /* packets::CompletionData */ && zvt_builder::zd_ok_of(b, x),
             }
         }
         /// the command's reply set
@@ -81,12 +81,12 @@
         /// a variant is returned only for its own control field, with what its packet type decodes on its own
         open spec fn parse_ok(b: Seq<u8>, v: Self) -> bool {
             match v {
-                Self::IntermediateStatusInformation(x) => b.len() >= 2 && b[0] == 4 && b[1] == 255 && <crate::packets::IntermediateStatusInformation as zvt_builder::ZvtSerializer>::zd_ok(b, x),
-                Self::SetTimeAndDate(x) => b.len() >= 2 && b[0] == 4 && b[1] == 1 && <crate::packets::SetTimeAndDate as zvt_builder::ZvtSerializer>::zd_ok(b, x),
-                Self::PrintLine(x) => b.len() >= 2 && b[0] == 6 && b[1] == 209 && <crate::packets::PrintLine as zvt_builder::ZvtSerializer>::zd_ok(b, x),
-                Self::PrintTextBlock(x) => b.len() >= 2 && b[0] == 6 && b[1] == 211 && <crate::packets::PrintTextBlock as zvt_builder::ZvtSerializer>::zd_ok(b, x),
-                Self::CompletionData(x) => b.len() >= 2 && b[0] == 6 && b[1] == 15 && <crate::packets::CompletionData as zvt_builder::ZvtSerializer>::zd_ok(b, x),
-                Self::Abort(x) => b.len() >= 2 && b[0] == 6 && b[1] == 30 && <crate::packets::Abort as zvt_builder::ZvtSerializer>::zd_ok(b, x),
+                Self::IntermediateStatusInformation(x) => b.len() >= 2 && b[0] == 4 && b[1] == 255 && zvt_builder::tid_of(x) == 2 /* packets::IntermediateStatusInformation */ && zvt_builder::zd_ok_of(b, x),
+                Self::SetTimeAndDate(x) => b.len() >= 2 && b[0] == 4 && b[1] == 1 && zvt_builder::tid_of(x) == 0 /* packets::SetTimeAndDate */ && zvt_builder::zd_ok_of(b, x),
+                Self::PrintLine(x) => b.len() >= 2 && b[0] == 6 && b[1] == 209 && zvt_builder::tid_of(x) == 6 /* packets::PrintLine */ && zvt_builder::zd_ok_of(b, x),
+                Self::PrintTextBlock(x) => b.len() >= 2 && b[0] == 6 && b[1] == 211 && zvt_builder::tid_of(x) == 7 /* packets::PrintTextBlock */ && zvt_builder::zd_ok_of(b, x),
+                Self::CompletionData(x) => b.len() >= 2 && b[0] == 6 && b[1] == 15 && zvt_builder::tid_of(x) == 3 /* packets::CompletionData */ && zvt_builder::zd_ok_of(b, x),
+                Self::Abort(x) => b.len() >= 2 && b[0] == 6 && b[1] == 30 && zvt_builder::tid_of(x) == 4 /* packets::Abort */ && zvt_builder::zd_ok_of(b, x),
             }
         }
         /// the command's reply set
@@ -100,12 +100,12 @@
         /// a variant is returned only for its own control field, with what its packet type decodes on its own
         open spec fn parse_ok(b: Seq<u8>, v: Self) -> bool {
             match v {
-                Self::IntermediateStatusInformation(x) => b.len() >= 2 && b[0] == 4 && b[1] == 255 && <crate::packets::IntermediateStatusInformation as zvt_builder::ZvtSerializer>::zd_ok(b, x),
-                Self::StatusInformation(x) => b.len() >= 2 && b[0] == 4 && b[1] == 15 && <crate::packets::StatusInformation as zvt_builder::ZvtSerializer>::zd_ok(b, x),
-                Self::PrintLine(x) => b.len() >= 2 && b[0] == 6 && b[1] == 209 && <crate::packets::PrintLine as zvt_builder::ZvtSerializer>::zd_ok(b, x),
-                Self::PrintTextBlock(x) => b.len() >= 2 && b[0] == 6 && b[1] == 211 && <crate::packets::PrintTextBlock as zvt_builder::ZvtSerializer>::zd_ok(b, x),
-                Self::CompletionData(x) => b.len() >= 2 && b[0] == 6 && b[1] == 15 && <crate::packets::CompletionData as zvt_builder::ZvtSerializer>::zd_ok(b, x),
-                Self::Abort(x) => b.len() >= 2 && b[0] == 6 && b[1] == 30 && <crate::packets::PartialReversalAbort as zvt_builder::ZvtSerializer>::zd_ok(b, x),
+                Self::IntermediateStatusInformation(x) => b.len() >= 2 && b[0] == 4 && b[1] == 255 && zvt_builder::tid_of(x) == 2 /* packets::IntermediateStatusInformation */ && zvt_builder::zd_ok_of(b, x),
+                Self::StatusInformation(x) => b.len() >= 2 && b[0] == 4 && b[1] == 15 && zvt_builder::tid_of(x) == 1 /* packets::StatusInformation */ && zvt_builder::zd_ok_of(b, x),
+                Self::PrintLine(x) => b.len() >= 2 && b[0] == 6 && b[1] == 209 && zvt_builder::tid_of(x) == 6 /* packets::PrintLine */ && zvt_builder::zd_ok_of(b, x),
+                Self::PrintTextBlock(x) => b.len() >= 2 && b[0] == 6 && b[1] == 211 && zvt_builder::tid_of(x) == 7 /* packets::PrintTextBlock */ && zvt_builder::zd_ok_of(b, x),
+                Self::CompletionData(x) => b.len() >= 2 && b[0] == 6 && b[1] == 15 && zvt_builder::tid_of(x) == 3 /* packets::CompletionData */ && zvt_builder::zd_ok_of(b, x),
+                Self::Abort(x) => b.len() >= 2 && b[0] == 6 && b[1] == 30 && zvt_builder::tid_of(x) == 5 /* packets::PartialReversalAbort */ && zvt_builder::zd_ok_of(b, x),
             }
         }
         /// the command's reply set
@@ -119,12 +119,12 @@
         /// a variant is returned only for its own control field, with what its packet type decodes on its own
         open spec fn parse_ok(b: Seq<u8>, v: Self) -> bool {
             match v {
-                Self::IntermediateStatusInformation(x) => b.len() >= 2 && b[0] == 4 && b[1] == 255 && <crate::packets::IntermediateStatusInformation as zvt_builder::ZvtSerializer>::zd_ok(b, x),
-                Self::StatusInformation(x) => b.len() >= 2 && b[0] == 4 && b[1] == 15 && <crate::packets::StatusInformation as zvt_builder::ZvtSerializer>::zd_ok(b, x),
-                Self::PrintLine(x) => b.len() >= 2 && b[0] == 6 && b[1] == 209 && <crate::packets::PrintLine as zvt_builder::ZvtSerializer>::zd_ok(b, x),
-                Self::PrintTextBlock(x) => b.len() >= 2 && b[0] == 6 && b[1] == 211 && <crate::packets::PrintTextBlock as zvt_builder::ZvtSerializer>::zd_ok(b, x),
-                Self::CompletionData(x) => b.len() >= 2 && b[0] == 6 && b[1] == 15 && <crate::packets::CompletionData as zvt_builder::ZvtSerializer>::zd_ok(b, x),
-                Self::Abort(x) => b.len() >= 2 && b[0] == 6 && b[1] == 30 && <crate::packets::Abort as zvt_builder::ZvtSerializer>::zd_ok(b, x),
+                Self::IntermediateStatusInformation(x) => b.len() >= 2 && b[0] == 4 && b[1] == 255 && zvt_builder::tid_of(x) == 2 /* packets::IntermediateStatusInformation */ && zvt_builder::zd_ok_of(b, x),
+                Self::StatusInformation(x) => b.len() >= 2 && b[0] == 4 && b[1] == 15 && zvt_builder::tid_of(x) == 1 /* packets::StatusInformation */ && zvt_builder::zd_ok_of(b, x),
+                Self::PrintLine(x) => b.len() >= 2 && b[0] == 6 && b[1] == 209 && zvt_builder::tid_of(x) == 6 /* packets::PrintLine */ && zvt_builder::zd_ok_of(b, x),
+                Self::PrintTextBlock(x) => b.len() >= 2 && b[0] == 6 && b[1] == 211 && zvt_builder::tid_of(x) == 7 /* packets::PrintTextBlock */ && zvt_builder::zd_ok_of(b, x),
+                Self::CompletionData(x) => b.len() >= 2 && b[0] == 6 && b[1] == 15 && zvt_builder::tid_of(x) == 3 /* packets::CompletionData */ && zvt_builder::zd_ok_of(b, x),
+                Self::Abort(x) => b.len() >= 2 && b[0] == 6 && b[1] == 30 && zvt_builder::tid_of(x) == 4 /* packets::Abort */ && zvt_builder::zd_ok_of(b, x),
             }
         }
         /// the command's reply set
@@ -138,12 +138,12 @@
         /// a variant is returned only for its own control field, with what its packet type decodes on its own
         open spec fn parse_ok(b: Seq<u8>, v: Self) -> bool {
             match v {
-                Self::IntermediateStatusInformation(x) => b.len() >= 2 && b[0] == 4 && b[1] == 255 && <crate::packets::IntermediateStatusInformation as zvt_builder::ZvtSerializer>::zd_ok(b, x),
-                Self::StatusInformation(x) => b.len() >= 2 && b[0] == 4 && b[1] == 15 && <crate::packets::StatusInformation as zvt_builder::ZvtSerializer>::zd_ok(b, x),
-                Self::PrintLine(x) => b.len() >= 2 && b[0] == 6 && b[1] == 209 && <crate::packets::PrintLine as zvt_builder::ZvtSerializer>::zd_ok(b, x),
-                Self::PrintTextBlock(x) => b.len() >= 2 && b[0] == 6 && b[1] == 211 && <crate::packets::PrintTextBlock as zvt_builder::ZvtSerializer>::zd_ok(b, x),
-                Self::CompletionData(x) => b.len() >= 2 && b[0] == 6 && b[1] == 15 && <crate::packets::CompletionData as zvt_builder::ZvtSerializer>::zd_ok(b, x),
-                Self::PartialReversalAbort(x) => b.len() >= 2 && b[0] == 6 && b[1] == 30 && <crate::packets::PartialReversalAbort as zvt_builder::ZvtSerializer>::zd_ok(b, x),
+                Self::IntermediateStatusInformation(x) => b.len() >= 2 && b[0] == 4 && b[1] == 255 && zvt_builder::tid_of(x) == 2 /* packets::IntermediateStatusInformation */ && zvt_builder::zd_ok_of(b, x),
+                Self::StatusInformation(x) => b.len() >= 2 && b[0] == 4 && b[1] == 15 && zvt_builder::tid_of(x) == 1 /* packets::StatusInformation */ && zvt_builder::zd_ok_of(b, x),
+                Self::PrintLine(x) => b.len() >= 2 && b[0] == 6 && b[1] == 209 && zvt_builder::tid_of(x) == 6 /* packets::PrintLine */ && zvt_builder::zd_ok_of(b, x),
+                Self::PrintTextBlock(x) => b.len() >= 2 && b[0] == 6 && b[1] == 211 && zvt_builder::tid_of(x) == 7 /* packets::PrintTextBlock */ && zvt_builder::zd_ok_of(b, x),
+                Self::CompletionData(x) => b.len() >= 2 && b[0] == 6 && b[1] == 15 && zvt_builder::tid_of(x) == 3 /* packets::CompletionData */ && zvt_builder::zd_ok_of(b, x),
+                Self::PartialReversalAbort(x) => b.len() >= 2 && b[0] == 6 && b[1] == 30 && zvt_builder::tid_of(x) == 5 /* packets::PartialReversalAbort */ && zvt_builder::zd_ok_of(b, x),
             }
         }
         /// the command's reply set
@@ -157,9 +157,9 @@
         /// a variant is returned only for its own control field, with what its packet type decodes on its own
         open spec fn parse_ok(b: Seq<u8>, v: Self) -> bool {
             match v {
-                Self::PrintLine(x) => b.len() >= 2 && b[0] == 6 && b[1] == 209 && <crate::packets::PrintLine as zvt_builder::ZvtSerializer>::zd_ok(b, x),
-                Self::PrintTextBlock(x) => b.len() >= 2 && b[0] == 6 && b[1] == 211 && <crate::packets::PrintTextBlock as zvt_builder::ZvtSerializer>::zd_ok(b, x),
-                Self::CompletionData(x) => b.len() >= 2 && b[0] == 6 && b[1] == 15 && <crate::packets::CompletionData as zvt_builder::ZvtSerializer>::zd_ok(b, x),
+                Self::PrintLine(x) => b.len() >= 2 && b[0] == 6 && b[1] == 209 && zvt_builder::tid_of(x) == 6 /* packets::PrintLine */ && zvt_builder::zd_ok_of(b, x),
+                Self::PrintTextBlock(x) => b.len() >= 2 && b[0] == 6 && b[1] == 211 && zvt_builder::tid_of(x) == 7 /* packets::PrintTextBlock */ && zvt_builder::zd_ok_of(b, x),
+                Self::CompletionData(x) => b.len() >= 2 && b[0] == 6 && b[1] == 15 && zvt_builder::tid_of(x) == 3 /* packets::CompletionData */ && zvt_builder::zd_ok_of(b, x),
             }
         }
         /// the command's reply set
@@ -173,7 +173,7 @@
         /// a variant is returned only for its own control field, with what its packet type decodes on its own
         open spec fn parse_ok(b: Seq<u8>, v: Self) -> bool {
             match v {
-                Self::CompletionData(x) => b.len() >= 2 && b[0] == 6 && b[1] == 15 && <crate::packets::CompletionData as zvt_builder::ZvtSerializer>::zd_ok(b, x),
+                Self::CompletionData(x) => b.len() >= 2 && b[0] == 6 && b[1] == 15 && zvt_builder::tid_of(x) == 3 /* packets::CompletionData */ && zvt_builder::zd_ok_of(b, x),
             }
         }
         /// the command's reply set
@@ -187,10 +187,10 @@
         /// a variant is returned only for its own control field, with what its packet type decodes on its own
         open spec fn parse_ok(b: Seq<u8>, v: Self) -> bool {
             match v {
-                Self::IntermediateStatusInformation(x) => b.len() >= 2 && b[0] == 4 && b[1] == 255 && <crate::packets::IntermediateStatusInformation as zvt_builder::ZvtSerializer>::zd_ok(b, x),
-                Self::PrintLine(x) => b.len() >= 2 && b[0] == 6 && b[1] == 209 && <crate::packets::PrintLine as zvt_builder::ZvtSerializer>::zd_ok(b, x),
-                Self::PrintTextBlock(x) => b.len() >= 2 && b[0] == 6 && b[1] == 211 && <crate::packets::PrintTextBlock as zvt_builder::ZvtSerializer>::zd_ok(b, x),
-                Self::CompletionData(x) => b.len() >= 2 && b[0] == 6 && b[1] == 15 && <crate::packets::CompletionData as zvt_builder::ZvtSerializer>::zd_ok(b, x),
+                Self::IntermediateStatusInformation(x) => b.len() >= 2 && b[0] == 4 && b[1] == 255 && zvt_builder::tid_of(x) == 2 /* packets::IntermediateStatusInformation */ && zvt_builder::zd_ok_of(b, x),
+                Self::PrintLine(x) => b.len() >= 2 && b[0] == 6 && b[1] == 209 && zvt_builder::tid_of(x) == 6 /* packets::PrintLine */ && zvt_builder::zd_ok_of(b, x),
+                Self::PrintTextBlock(x) => b.len() >= 2 && b[0] == 6 && b[1] == 211 && zvt_builder::tid_of(x) == 7 /* packets::PrintTextBlock */ && zvt_builder::zd_ok_of(b, x),
+                Self::CompletionData(x) => b.len() >= 2 && b[0] == 6 && b[1] == 15 && zvt_builder::tid_of(x) == 3 /* packets::CompletionData */ && zvt_builder::zd_ok_of(b, x),
             }
         }
         /// the command's reply set
